@@ -37,7 +37,7 @@ def spike(tier, carrier='list_none', min_n=1):
     ths = [(None, None), (1, None), (None, 2), (1, 2), (2, 2), (2, 1), (0, 1), (0, 0), (1, 0)]
     for method in ('average', 'differential'):
         for s, f in ths:
-            for n in lengths(tier, [1, 2, 3, 4], [1, 2, 3, 4, 5, 6]):
+            for n in lengths(tier, [1, 2, 3, 4], [1, 2, 3, 4, 5, 6, 7]):
                 if n < min_n:
                     continue
                 for pat in pats_for(n, tier, cap=12):
@@ -61,7 +61,7 @@ def rate_of_change(tier, carrier='list_none', tcarrier='dt64'):
             'multiday': lambda n: [100, 90100, 90130, 349335, 349336, 435736][:n]}
     for name, ax in axes.items():
         for thr in (1, Fr(1, 2), 0):
-            for n in lengths(tier, [0, 1, 2, 3, 4], [0, 1, 2, 3, 4, 5]):
+            for n in lengths(tier, [0, 1, 2, 3, 4], [0, 1, 2, 3, 4, 5, 6]):
                 for pat in pats_for(n, tier, cap=10):
                     t = ax(n)
                     c = Case('rate_of_change_test', [data_input('inp', pat, carrier), time_input('tinp', t, tcarrier)],
@@ -79,9 +79,9 @@ def flat_line(tier, carrier='list_none', tcarrier='dt64'):
     step = 10
     combos = [(20, 30, 1), (20, 20, 1), (25, 35, 1), (5, 10, 1), (10, 20, 1), (30, 20, 1), (20, 1000, 1), (20, 30, 0)]
     if tier == 'thorough':
-        combos += [(0, 0, 1), (40, 50, 2), (10, 10, 1), (9, 19, 1)]
+        combos += [(0, 0, 1), (40, 50, 2), (10, 10, 1), (9, 19, 1), (50, 60, 1), (15, 45, 1), (60, 10, 1)]
     for s, f, tol in combos:
-        for n in lengths(tier, [0, 1, 2, 3, 4, 5], [0, 1, 2, 3, 4, 5, 6]):
+        for n in lengths(tier, [0, 1, 2, 3, 4, 5], [0, 1, 2, 3, 4, 5, 6, 7]):
             for pat in pats_for(n, tier, cap=8):
                 t = regular(n, step)
                 kw = dict(suspect_threshold=s, fail_threshold=f)
@@ -95,7 +95,7 @@ def flat_line(tier, carrier='list_none', tcarrier='dt64'):
 def attenuated(tier, carrier='list_none', tcarrier='dt64'):
     for ct in ('std', 'range'):
         for s, f in ((2, 1), (1, 1), (1, 2)):
-            for n in lengths(tier, [1, 2, 3, 4], [1, 2, 3, 4, 5]):
+            for n in lengths(tier, [1, 2, 3, 4], [1, 2, 3, 4, 5, 6]):
                 for pat in pats_for(n, tier, cap=8):
                     t = regular(n)
                     variants = [dict()]
@@ -103,7 +103,7 @@ def attenuated(tier, carrier='list_none', tcarrier='dt64'):
                         variants += [dict(test_period=20), dict(test_period=25, min_obs=2), dict(test_period=30, min_period=20)]
                     if n >= 4 and ct == 'range' and (s, f) == (2, 1):
                         # irregular axis: the sampling step used for min_period is the median step
-                        for tt in ([100, 110, 120, 130, 230][:n], [100, 200, 210, 220, 230][:n]):
+                        for tt in ([100, 110, 120, 130, 230, 240][:n], [100, 200, 210, 220, 230, 240][:n]):
                             kw = dict(suspect_threshold=Fr(s), fail_threshold=Fr(f), test_period=30, min_period=30, check_type=ct)
                             c = Case('attenuated_signal_test', [data_input('inp', pat, carrier), time_input('tinp', tt, tcarrier)], kw, n=n,
                                      pat={'inp': pat}, meta={'class': 'irregular-window', 't': tt})
@@ -118,10 +118,11 @@ def attenuated(tier, carrier='list_none', tcarrier='dt64'):
                                  pat={'inp': pat}, meta={'class': ct + ('-window' if extra else '-whole'), 't': t})
                         yield c, specs.Attenuated(c)
     t = regular(3)
-    c = Case('attenuated_signal_test', [data_input('inp', 'ppp', carrier), time_input('tinp', t, tcarrier)],
-             dict(suspect_threshold=Fr(2), fail_threshold=Fr(1), check_type='variance'), n=3, pat={'inp': 'ppp'},
-             meta={'class': 'unknown-check-type', 't': t})
-    yield c, specs.Attenuated(c)
+    for bad_type in ('variance', 'st', 'ran', '', 'STD', 'stdrange', None):
+        c = Case('attenuated_signal_test', [data_input('inp', 'ppp', carrier), time_input('tinp', t, tcarrier)],
+                 dict(suspect_threshold=Fr(2), fail_threshold=Fr(1), check_type=bad_type), n=3, pat={'inp': 'ppp'},
+                 meta={'class': 'unknown-check-type', 't': t})
+        yield c, specs.Attenuated(c)
 
 
 def density(tier, carrier='list_none'):
@@ -150,12 +151,14 @@ def density(tier, carrier='list_none'):
 
 
 def location(tier, carrier='list_none'):
-    boxes = [None, (-10, -20, 10, 20), (0, 0, 0, 0)]
+    boxes = [None, (-10, -20, 10, 20), (0, 0, 0, 0), (10, -20, -10, 20), (-10, 20, 10, -20)]      # incl. descending bounds (empty box)
     for bbox in boxes:
         for rmax in (None, 5, 0):
-            for n in lengths(tier, [0, 1, 2, 3], [0, 1, 2, 3]):
+            for n in lengths(tier, [0, 1, 2, 3], [0, 1, 2, 3, 4]):
                 pp = [(a, b) for a in patterns(n) for b in patterns(n)]
                 if tier != 'thorough' and n == 3:
+                    pp = [(a, b) for a, b in pp if a.count('m') + b.count('m') <= 2]
+                if n == 4:
                     pp = [(a, b) for a, b in pp if a.count('m') + b.count('m') <= 2]
                 for plon, plat in pp:
                     kw = {}
@@ -182,7 +185,10 @@ def speed(tier, carrier='list_none', tcarrier='dt64'):
             if tier != 'thorough' and n == 3:
                 pp = [(a, b) for a, b in pp if a.count('m') + b.count('m') <= 2]
             for plon, plat in pp:
-                for t in ([regular(n)] + ([[100, 130, 86530][:n]] if n >= 2 else [])):
+                axes = [regular(n)] + ([[100, 130, 86530][:n]] if n >= 2 else [])
+                if n == 3 and (s, f) == (1, 2):
+                    axes.append([100, 100, 110])        # a repeated timestamp: the speed of that hop is undefined
+                for t in axes:
                     c = Case('speed_test', [data_input('lon', plon, carrier), data_input('lat', plat, carrier), time_input('tinp', t, tcarrier)],
                              dict(suspect_threshold=Fr(s), fail_threshold=Fr(f)), n=n, pat={'lon': plon, 'lat': plat},
                              meta={'class': 'speed', 't': t})
@@ -276,6 +282,10 @@ def clim_members():
         'abs-z': [dict(base, zspan=(10, 20))],
         'abs-zf': [dict(base, zspan=(20, 10), fspan=(5, 1))],
         'abs-rev': [dict(tspan=(T_HI, T_LO), vspan=(4, 2))],
+        'abs-f-inside-v': [dict(base, vspan=(2, 6), fspan=(3, 5))],
+        'abs-f-overlap-v': [dict(base, vspan=(3, 6), fspan=(0, 4), zspan=(10, 20))],
+        'month-f-overlap-v': [dict(tspan=(2, 3), vspan=(3, 6), period='month', fspan=(4, 8))],
+        'f-then-plain': [dict(base, fspan=(1, 5)), dict(tspan=T, vspan=(3, 6))],
         'month': [dict(tspan=(2, 3), vspan=(2, 4), period='month')],
         'month-z': [dict(tspan=(2, 3), vspan=(2, 4), period='month', zspan=(10, 20))],
         'month-zf': [dict(tspan=(3, 2), vspan=(2, 4), period='month', zspan=(10, 20), fspan=(1, 5))],
@@ -326,13 +336,17 @@ def climatology(tier, carrier='list_none', tcarrier='dt64', members=None):
                 zpats += ['ppmpp']
             for zp in zpats:
                 ipats = ['ppppp', 'pmppm', 'mpmpp'] if tier != 'thorough' else ['ppppp', 'pmppm', 'mpmpp', 'ppmpp', 'mmmmm']
+                orders = [list(range(5))]
+                if name in ('abs', 'abs-z', 'overlap', 'month', 'week-edge', 'mixed') and zp == 'ppppp':
+                    orders.append([2, 0, 4, 1, 3])          # observations not in chronological order
                 for ip in ipats:
-                    t = list(CLIM_T)
+                  for order in orders:
+                    t = [CLIM_T[i] for i in order]
                     zin = data_input('zinp', zp, carrier, values=[Fr(v) for v in z])
                     c = Case('climatology_test', [], dict(config=cfg, inp=data_input('inp', ip, carrier), tinp=time_input('tinp', t, tcarrier), zinp=zin),
                              n=5, pat={'inp': ip, 'zinp': zp},
-                             meta={'class': name, 't': t, 'z': z, 'feat': feats, 'members': ms},
-                             label=f'climatology_test(members={name}; inp:{ip!r} zinp:{zp!r} z={z})')
+                             meta={'class': name + ('' if order == sorted(order) else '/unsorted-times'), 't': t, 'z': z, 'feat': feats, 'members': ms},
+                             label=f'climatology_test(members={name}; inp:{ip!r} zinp:{zp!r} z={z}' + ('' if order == sorted(order) else f'; time order {order}') + ')')
                     yield c, specs.Climatology(c)
     # an unknown period name is rejected
     bad = [dict(tspan=(Fr(1), Fr(2)), vspan=(Fr(2), Fr(4)), period='fortnight')]
